@@ -6,7 +6,7 @@
     zero-length first/middle segments, pointers out of range, more than 64 hop fields.
     [wf p]: p is a model the encoder accepts (wire_valid, with the CurrHF range check of the
     C03 repair) whose fields are inside the ranges of their Rust types. *)
-From Sci Require Import StdPath.Model StdPath.ModelRouting StdPath.Spec StdPath.Proofs StdPath.ProofsRev StdPath.ProofsEnc StdPath.ProofsQuery StdPath.ProofsOneHop.
+From Sci Require Import StdPath.Model StdPath.ModelRouting StdPath.Spec StdPath.Proofs StdPath.ProofsRev StdPath.ProofsEnc StdPath.ProofsQuery StdPath.ProofsOneHop StdPath.Examples.
 Local Open Scope N_scope.
 
 (** Reversing the encoded bytes in place gives exactly the encoding of the reversed model,
@@ -140,10 +140,6 @@ Print Assumptions no_panic.
 
 (** non-vacuity: a two-segment model at position (1, 2) is accepted; reversal succeeds and the
     involution/commutation theorems apply to it *)
-Definition ex_hop (k : N) : hop := mkHop 0 63 k (k + 1) [1; 2; 3; 4; 5; k].
-Definition ex_path : spath :=
-  mkPath 1 2 [mkSeg (mkInfo 0 7 1700000000) [ex_hop 1; ex_hop 3];
-              mkSeg (mkInfo 1 9 1700000100) [ex_hop 5; ex_hop 7; ex_hop 9]].
 Example ex_path_wf : wf ex_path.
 Proof. split; vm_compute; reflexivity. Qed.
 Example ex_path_reversed :
